@@ -139,7 +139,11 @@ def loops(fn):
             for g in n.generators:
                 out.append(Loop(n, g.target, g.iter, [n.elt], "comp", g.ifs))
         elif isinstance(n, ast.Call) and isinstance(n.func, ast.Name) and n.func.id == "map" and len(n.args) == 2:
-            out.append(Loop(n, None, n.args[1], [n.args[0]], "map"))
+            f = n.args[0]
+            if isinstance(f, ast.Lambda) and len(f.args.args) == 1:
+                out.append(Loop(n, ast.Name(id=f.args.args[0].arg, ctx=ast.Store()), n.args[1], [f.body], "map"))
+            else:
+                out.append(Loop(n, None, n.args[1], [n.args[0]], "map"))
     return out
 
 
